@@ -13,6 +13,9 @@ pub mod runtime;
 
 pub mod plugin;
 
+#[cfg(mimium_verif)]
+pub mod verif_hooks;
+
 use std::path::PathBuf;
 
 use crate::plugin::{MachineFunction, MacroFunction};
